@@ -215,6 +215,7 @@ var transparent = map[string]bool{
 	"(*go.amzn.com/lambda/rapidcore/env.Environment).mergeCustomerEnvironmentVariables": true,
 	"go.amzn.com/lambda/core/directinvoke.renderBadRequest":                             true,
 	"go.amzn.com/lambda/core/directinvoke.renderInternalServerError":                    true,
+	"go.amzn.com/lambda/rapi/rendering.newAgentInvokeEvent":                             true,
 }
 
 // baselineSet: name -> signature key ("" when the table has none)
